@@ -221,6 +221,18 @@ def build(reg, src):
     reg.extra_checks.append(binding_keeps_identity)
 
     from replay import c10 as rp
+    # (bounded, labelled) keys of different kinds with the same text are different keys: Python's dict/hash/== on the key objects is an
+    # assumed contract of the proof above - this battery is what looks at the key classes themselves
+    def key_kinds(ctx):
+        from pyvc.run import run_replay
+        r = run_replay(lambda inputs, name: dict(rows=rp.key_kind_rows()), {}, 'key-kinds', timeout_s=60)
+        rows_ = r.get('rows') if isinstance(r, dict) else None
+        if not rows_:
+            return [dict(name='key-kinds(bounded)::harness', ok=False, undecided=True, backend='native-execution (bounded)', detail=str(r)[:200])]
+        return [dict(name=f"key-kinds(bounded)::{g}", ok=bool(ok), backend='native-execution (bounded)', detail=d, confirmed=not ok) for g, ok, d in rows_]
+    key_kinds.__name__ = 'key-kinds'
+    reg.extra_checks.append(key_kinds)
+    reg.bounded.append(dict(check='key-kinds', tool='native execution', bound='4 pairs of key kinds with the same text, both insertion orders', result='see rows'))
     reg.replays.append((r'.', rp.replay_dict))
 
 
